@@ -4,6 +4,7 @@ import (
 	"fmt"
 	"go/token"
 	"go/types"
+	"sort"
 	"strings"
 
 	"golang.org/x/tools/go/ssa"
@@ -100,6 +101,21 @@ func init() {
 		if fv == nil && len(f.C) == 1 {
 			fv = sc.st.funcs[f.C[0]]
 		}
+		if fv == nil && len(f.C) == 1 {
+			// a function value read back from memory: it is the named function iff it equals one of the closures
+			// of that function created on this path
+			var alts []string
+			for id, cand := range sc.st.funcs {
+				if cand.Fn.RelString(sc.st.e.P.TPkg) == x.Args[1].Name {
+					alts = append(alts, eq(f.C[0], id))
+				}
+			}
+			sort.Strings(alts)
+			if len(alts) == 0 {
+				return mkBool("false")
+			}
+			return mkBool(or(alts...))
+		}
 		if fv == nil {
 			sc.fail("isFunc: not a statically known function value")
 		}
@@ -115,6 +131,20 @@ func init() {
 		fv := f.F
 		if fv == nil && len(f.C) == 1 {
 			fv = sc.st.funcs[f.C[0]]
+		}
+		if fv == nil && len(f.C) == 1 {
+			// read back from memory: equal to one of the method values of that method created on this path
+			var alts []string
+			for id, cand := range sc.st.funcs {
+				if len(cand.Bindings) == 1 && cand.Fn.RelString(sc.st.e.P.TPkg) == x.Args[1].Name+"$bound" {
+					alts = append(alts, and(eq(f.C[0], id), eq(cand.Bindings[0].C[0], recv.C[0])))
+				}
+			}
+			sort.Strings(alts)
+			if len(alts) == 0 {
+				return mkBool("false")
+			}
+			return mkBool(or(alts...))
 		}
 		if fv == nil || len(fv.Bindings) != 1 || fv.Fn.RelString(sc.st.e.P.TPkg) != x.Args[1].Name+"$bound" {
 			return mkBool("false")
